@@ -309,6 +309,23 @@ def recursion_signature(line, impl_ans, model_ans):
     return sig, ok
 
 
+def regen_gen():
+    """regenerate coq/Gen/TautVerdict.v from the current source of the verdict layer (translators/taut_verdict.py)"""
+    import sys
+    sys.path.insert(0, os.path.join(C.VERIF, 'translators'))
+    import importlib
+    import taut_verdict
+    importlib.reload(taut_verdict)
+    try:
+        text = taut_verdict.generate(C.REPO)
+        C.write_if_changed(os.path.join(C.COQ, 'Gen', 'TautVerdict.v'), text)
+        return True, ''
+    except SystemExit as e:
+        return False, str(e)
+    except Exception as e:  # noqa: BLE001
+        return False, f'taut_verdict: {e!r}'
+
+
 def build_model():
     """like common.build_mlref, but links the `unix` library (the driver uses alarm() for per-case
     timeouts, because the modelled to_cnf is exponential exactly like the implementation)"""
@@ -488,8 +505,14 @@ def nontrivial(line, ans):
 def run(tier, seed):
     R = C.Report(CID, tier, seed)
 
+    # 0. tie by translation: regenerate coq/Gen/TautVerdict.v from the CURRENT tautology.py (fail closed)
+    ok_tr, tr_msg = regen_gen()
     # 1. proof stage
     P = R.proof_stage()
+    if not ok_tr:
+        P['ok'] = False
+        P['log'] = 'translator failed closed: ' + tr_msg
+        P['discharged'] = 0     # the regenerated model could not be produced: nothing is proved about the current source
     proof_broken = not P['ok']
     if proof_broken:
         R.notes.append('proof stage failed: ' + P['log'][-1500:])
@@ -717,6 +740,9 @@ def run(tier, seed):
                           'V/S: resolvable / simplify_clause calls. Q: proofs executed under StatefulInterpreter. '
                           'Compared per case: expansion, every stage output, final clause list, hint dictionary, build result, verdict.')
     return R.finish(level='proof', extra={'coqchk': coqchk} if coqchk else None, trusted_base=C.TRUSTED_COMMON + [
+        'translators/taut_verdict.py (Python-ast, fail closed): regenerates coq/Gen/TautVerdict.v from the current tautology.py on every run; '
+        'PROJECTION: proof objects (ProofThunk values, proof-only statements, build_proof_from_hint / prove_trivial_clause) are dropped; '
+        'coq/Taut/GenPrelude.v fixes the reading of the Python data model (expanded patterns, ConjForm objects, frozensets, dicts, list iteration)',
         'ocaml/taut_driver.ml (parser/printer of the line protocol)',
         'harness/impl/taut_runner.py: spies on resolution_algorithm/build_proof_from_hint by subclassing (no change to behaviour)',
         'fuel: model functions to_cnf/res_loop/build_term take explicit fuel; theorems exclude the out-of-fuel result; the driver uses 200000',
